@@ -1,22 +1,46 @@
 #!/bin/bash
 # tools/run_seeded.sh <seeded-dir> [quick|thorough] [CHECK-ID ...]
-# Applies seeded/<id>/patch.diff to /repo's working tree, runs the given checks (default: the
-# property named in meta.json), prints their verdict lines, and always restores /repo.
+# Runs the given checks (default: the property named in meta.json) against a copy of /repo's HEAD
+# tree with seeded/<id>/patch.diff applied, and prints their verdict lines.
+# /repo itself is not touched: the patched copy is bind-mounted over /repo in a private mount
+# namespace (and a separate build directory over .build), so that checks running elsewhere on
+# the machine keep seeing the real tree. Falls back to patching /repo's working tree (restored
+# afterwards) where mount namespaces are not available.
 set -u
 D="$(realpath "${1:?seeded dir}")"; TIER="${2:-quick}"; shift; shift 2>/dev/null
 ROOT="$(cd "$(dirname "$0")/.." && pwd)"
 IDS="$*"
 [ -z "$IDS" ] && IDS="$(python3 -c "import json;print(json.load(open('$D/meta.json'))['property'])")"
-if ! git -C /repo diff --quiet; then echo "/repo working tree is not clean"; exit 2; fi
-git -C /repo apply "$D/patch.diff" || { echo "patch does not apply"; exit 2; }
-trap 'git -C /repo checkout -- . ; git -C /repo clean -fdq -- libwallet impls api controller util config src 2>/dev/null' EXIT
 mkdir -p "$ROOT/.seeded-evidence"
-for ID in $IDS; do
-  cp "$ROOT/evidence/$ID.json" "$ROOT/.seeded-evidence/$ID.orig.json" 2>/dev/null
-  echo "== $ID ($TIER) with $(basename "$D")"
-  "$ROOT/check" "$ID" "$TIER" 2>&1 | grep -E "^(VIOLATION|OK|MACHINERY|KNOWN-FINDING|  key:|  what:)" | cut -c1-400
-  echo "exit=${PIPESTATUS[0]}"
-  # the evidence/replay files written under a seeded change are not evidence of the real tree
-  cp "$ROOT/.seeded-evidence/$ID.orig.json" "$ROOT/evidence/$ID.json" 2>/dev/null
-done
-rm -f "$ROOT"/replays/*.json
+
+run_checks() {
+  for ID in $IDS; do
+    cp "$ROOT/evidence/$ID.json" "$ROOT/.seeded-evidence/$ID.orig.json" 2>/dev/null
+    echo "== $ID ($TIER) with $(basename "$D")"
+    "$ROOT/check" "$ID" "$TIER" 2>&1 | grep -E "^(VIOLATION|OK|MACHINERY|KNOWN-FINDING|  key:|  what:)" | cut -c1-400
+    echo "exit=${PIPESTATUS[0]}"
+    # the evidence/replay files written under a seeded change are not evidence of the real tree
+    cp "$ROOT/.seeded-evidence/$ID.orig.json" "$ROOT/evidence/$ID.json" 2>/dev/null
+  done
+  rm -f "$ROOT"/replays/*.json
+}
+
+if unshare -m true 2>/dev/null; then
+  COPY=/tmp/seedrepo; NEW=/tmp/seedrepo.new.$$
+  # one run at a time: the copy and the build directory are shared between runs
+  exec 9>/tmp/seedrepo.lock; flock 9
+  rm -rf "$NEW"; mkdir -p "$NEW" "$COPY" "$ROOT/.build-seeded"
+  git -C /repo archive HEAD | tar -x -C "$NEW" || exit 2
+  # content-based sync without preserving times: a file that differs is rewritten (new mtime, so cargo
+  # rebuilds it), an identical one is left alone
+  rsync -rc --delete "$NEW"/ "$COPY"/ && rm -rf "$NEW"
+  (cd "$COPY" && git apply "$D/patch.diff") || { echo "patch does not apply"; exit 2; }
+  export -f run_checks; export D TIER IDS ROOT
+  unshare -m bash -c "mount --bind $COPY /repo && mount --bind $ROOT/.build-seeded $ROOT/.build && run_checks"
+  (cd "$COPY" && git apply -R "$D/patch.diff")
+else
+  if ! git -C /repo diff --quiet; then echo "/repo working tree is not clean"; exit 2; fi
+  git -C /repo apply "$D/patch.diff" || { echo "patch does not apply"; exit 2; }
+  trap 'git -C /repo checkout -- . ; git -C /repo clean -fdq -- libwallet impls api controller util config src 2>/dev/null' EXIT
+  run_checks
+fi
